@@ -116,7 +116,7 @@ const TYPES: [Ty; 6] = [Ty::Master, Ty::U, Ty::I, Ty::F, Ty::S, Ty::B];
 // ids by declaration position: the positions that can be parents (0 and 2 above all) carry the ids that do not fit
 // 32 bits, so that every table that mentions a parent id is exercised with an 8- and a 5-byte id
 const IDS: [u64; 4] = [0x0184848484848484, 0x81, 0x0885858585, 0x4082];
-const GLOBS: [(Option<u64>, Option<u64>); 5] = [(Some(1), Some(2)), (None, None), (Some(1), None), (None, Some(3)), (Some(0), Some(1))];
+const GLOBS: [(Option<u64>, Option<u64>); 6] = [(Some(1), Some(2)), (None, None), (Some(1), None), (None, Some(3)), (Some(0), Some(1)), (Some(2), Some(2))];
 
 /// Every well-formed declaration with <= n_max user variants: variant types from the six data types, parent =
 /// none or any earlier Master variant, optional trailing placeholder on each variant's own path.
